@@ -315,6 +315,15 @@ type c18Case struct {
 	Desc   string       `json:"desc"`
 	Sal    int64        `json:"salience"`
 	State  *facts.State `json:"state"`
+	// Siblings: further rules of the same rule set (never satisfied), with the description and salience
+	// each must end up with (the defaults where the JSON omits them)
+	Siblings []c18Sibling `json:"other_rules_of_the_set,omitempty"`
+}
+
+type c18Sibling struct {
+	Name string `json:"name"`
+	Desc string `json:"desc"`
+	Sal  int64  `json:"salience"`
 }
 
 type c18Obs struct {
@@ -398,6 +407,19 @@ func c18Run(c *c18Case) []string {
 	if int64(entry.Salience) != c.Sal {
 		v = append(v, fmt.Sprintf("salience %d, JSON says %d", entry.Salience, c.Sal))
 	}
+	for _, sib := range c.Siblings {
+		_, e2, err2 := c18Observe(text, sib.Name, c.State)
+		if err2 != nil || e2 == nil {
+			v = append(v, fmt.Sprintf("rule %s of the set is missing from the produced GRL (%v)", sib.Name, err2))
+			continue
+		}
+		if e2.RuleDescription != sib.Desc {
+			v = append(v, fmt.Sprintf("rule %s of the set: description %q, JSON says %q", sib.Name, e2.RuleDescription, sib.Desc))
+		}
+		if int64(e2.Salience) != sib.Sal {
+			v = append(v, fmt.Sprintf("rule %s of the set: salience %d, JSON says %d", sib.Name, e2.Salience, sib.Sal))
+		}
+	}
 	want, _, err := c18Observe(c.Direct, c.Name, c.State)
 	if err != nil {
 		return append(v, "harness: direct rendering does not build: "+err.Error())
@@ -455,6 +477,9 @@ var c18Malformed = []struct {
 	{"name_is_keyword", `{"name":"then","when":"true","then":["F.I64 = 1"]}`},
 	{"ruleset_with_bad_rule", `[{"name":"A","when":"true","then":["F.I64 = 1"]},{"name":"B","when":{"nope":[1,2]},"then":["F.I64 = 1"]}]`},
 	{"ruleset_not_objects", `[1,2]`},
+	{"ruleset_later_rule_without_name", `[{"name":"A","when":"true","then":["F.I64 = 1"]},{"when":"true","then":["F.I64 = 2"]}]`},
+	{"ruleset_later_rule_without_when", `[{"name":"A","when":"true","then":["F.I64 = 1"]},{"name":"B","then":["F.I64 = 2"]}]`},
+	{"ruleset_later_rule_without_then", `[{"name":"A","when":"true","then":["F.I64 = 1"]},{"name":"B","when":"true"}]`},
 	{"truncated_json", `{"name":"R","when":{"eq":["F.B",true]`},
 	{"empty_action_string", `{"name":"R","when":"true","then":[""]}`},
 	{"empty_call_operand", `{"name":"R","when":"true","then":[{"call":["F.Mark", ""]}]}`},
@@ -462,7 +487,7 @@ var c18Malformed = []struct {
 }
 
 func TestC18(t *testing.T) {
-	col := stats.New("C18", "a typed expression tree (condition of depth 1-4 over all 15 operators, negation, fact paths of every addressing form, calls, constants incl. hostile strings) and 1-3 actions are generated and converted into the JSON rule format with drawn choices per node: operator objects (chains of one operator flattened into n-ary objects of arity 2-4 = left fold), unary not over operator objects, plain-string operands (raw GRL of an atom), JSON numbers and booleans, obj/const wrappers, call objects, set objects, plain-string actions with/without semicolon; single-rule and rule-set form; description and salience drawn. Oracle: the translator's output is accepted by the builder with the JSON's name, description and salience; its FetchMatchingRules membership and the facts left by one firing equal those of the same tree rendered by the harness's own printer with explicit grouping and own string quoting, built through the same engine (so evaluator defects cannot leak in), on a generated fact state; 41 fixed malformed inputs (empty, blank, not JSON, unknown operator, arity 0, and/or arity <2, two keys, missing/empty name, missing/null when/then, wrong JSON types, bad salience, bad set/call arity, non-identifier name, truncated JSON ...) must end in an error from the translator or the builder, never a panic or a usable rule. Non-trivial: a lower-precedence operator nested in a higher one, or a string constant that needs escaping. Distinct by the JSON text.",
+	col := stats.New("C18", "a typed expression tree (condition of depth 1-4 over all 15 operators, negation, fact paths of every addressing form, calls, constants incl. hostile strings) and 1-3 actions are generated and converted into the JSON rule format with drawn choices per node: operator objects (chains of one operator flattened into n-ary objects of arity 2-4 = left fold), unary not over operator objects, plain-string operands (raw GRL of an atom), JSON numbers and booleans, obj/const wrappers, call objects, set objects, plain-string actions with/without semicolon; single-rule and rule-set form (the rule among 0-3 other, never satisfied rules that state or omit description and salience on their own); description and salience drawn. Oracle: the translator's output is accepted by the builder with the JSON's name, description and salience; its FetchMatchingRules membership and the facts left by one firing equal those of the same tree rendered by the harness's own printer with explicit grouping and own string quoting, built through the same engine (so evaluator defects cannot leak in), on a generated fact state; 44 fixed malformed inputs (empty, blank, not JSON, unknown operator, arity 0, and/or arity <2, two keys, missing/empty name, missing/null when/then, wrong JSON types, bad salience, bad set/call arity, non-identifier name, truncated JSON ...) must end in an error from the translator or the builder, never a panic or a usable rule. Non-trivial: a lower-precedence operator nested in a higher one, or a string constant that needs escaping. Distinct by the JSON text.",
 		"plain-string operands are raw GRL by documentation: the generator only puts atoms there",
 		"arity 1 is only used for unary not over an operator object (the one unary form the repository defines)")
 	defer col.Flush()
@@ -531,9 +556,34 @@ func TestC18(t *testing.T) {
 		}
 		jr["then"] = then
 		var doc interface{} = jr
+		var siblings []c18Sibling
 		if rapid.Bool().Draw(rt, "ruleset_form") {
-			doc = []interface{}{jr}
+			// a rule set: the rule under test among 0-3 other rules that are never satisfied; each rule
+			// states or omits its description and salience on its own
+			set := []interface{}{jr}
 			conv.features["ruleset_form"]++
+			for i, n := 0, rapid.IntRange(0, 3).Draw(rt, "nsiblings"); i < n; i++ {
+				sib := c18Sibling{Name: fmt.Sprintf("Sib%d", i)}
+				sj := map[string]interface{}{"name": sib.Name, "when": "false", "then": []interface{}{"F.I64 = 1"}}
+				if rapid.Bool().Draw(rt, "sib_desc") {
+					sib.Desc = rapid.SampledFrom([]string{"other rule", "x", "first rule"}).Draw(rt, "sib_desc_text")
+					sj["desc"] = sib.Desc
+				}
+				if rapid.Bool().Draw(rt, "sib_sal") {
+					sib.Sal = rapid.SampledFrom([]int64{7, -3, 100, 1}).Draw(rt, "sib_sal_value")
+					sj["salience"] = sib.Sal
+				}
+				siblings = append(siblings, sib)
+				if rapid.Bool().Draw(rt, "sib_before") {
+					set = append([]interface{}{sj}, set...)
+				} else {
+					set = append(set, sj)
+				}
+			}
+			if len(siblings) > 0 {
+				conv.features["ruleset_with_several_rules"]++
+			}
+			doc = set
 		}
 		jb, err := json.Marshal(doc)
 		if err != nil {
@@ -543,7 +593,7 @@ func TestC18(t *testing.T) {
 		if strings.ContainsAny(desc, "\"\\\t") {
 			r.Desc = nil // the direct rendering is only used for behaviour
 		}
-		c := &c18Case{JSON: string(jb), Direct: gast.RuleString(r) + "\n", Name: name, Desc: desc, Sal: sal, State: st}
+		c := &c18Case{JSON: string(jb), Direct: gast.RuleString(r) + "\n", Name: name, Desc: desc, Sal: sal, State: st, Siblings: siblings}
 		// the reference must be able to give the tree a meaning; otherwise the case is outside the domain
 		if _, rerr := ref.New(st.Copy()).Eval(cond); rerr != nil {
 			col.Case(c.JSON, false, "excluded_condition_not_evaluable")
